@@ -522,7 +522,11 @@ def catalog(thorough):
         for l in ls:
             add(Flex(it, l))
     add(Flex(U64, U8)); add(Flex(V88, U32)); add(Flex(U16, LE16)); add(Flex(Vec(U16, U16), U16))
+    global IO_SHAPES
+    IO_SHAPES = [W_msg, W_pad, U_u32_v88, Vec(U8, U32), Str(U16), Flex(V88, U8), Flex(Vec(U16, U16), U16), P_u8u32, Q_small, PU, Flex(U32, U8), W_repo]
     return top
+
+IO_SHAPES = []
 
 def main():
     out = sys.argv[1]
@@ -552,6 +556,10 @@ def main():
     src.append("#[cfg(feature = \"thorough\")]\n" + visit("thorough_extra_shapes", extra))
     src.append("#[cfg(not(feature = \"thorough\"))]\npub fn thorough_extra_shapes() -> Vec<Box<dyn harness::ShapeDyn>> { vec![] }\n")
     src.append("pub const HAS_THOROUGH: bool = cfg!(feature = \"thorough\");\n")
+    io = "pub fn io_shapes() -> Vec<Box<dyn harness::IoShape>> {\n    vec![\n"
+    for t in IO_SHAPES:
+        io += "        Box::new(harness::IoShapeOf::<%s>::new(\"%s\")),\n" % (t.rust(), t.spec())
+    src.append(io + "    ]\n}\n")
     src.append("pub const N_QUICK: usize = %d;\npub const N_THOROUGH: usize = %d;\n" % (len(quick), len(quick) + len(extra)))
     open(out, "w").write("\n".join(src))
     print("items=%d (quick items=%d) quick shapes=%d thorough shapes=%d" % (len(Item.order), nq_items, len(quick), len(quick) + len(extra)))
